@@ -60,7 +60,8 @@ class TestSpec:
              `factors` is given, in which case every factor is enumerated)
     """
 
-    def __init__(self, name, gen, body, n, factors=None, tape=1024, show=None):
+    def __init__(self, name, gen, body, n, factors=None, tape=1024, show=None, fuzz=None):
+        self.fuzz = fuzz  # None or {'thorough': libFuzzer runs per process} (atheris layer)
         self.name = name
         self.gen = gen
         self.body = body
@@ -157,14 +158,16 @@ def run_body(test, case, col, origin, timeout=20, tape=None):
     """Run one case through the property body with watchdog and escape handling."""
     from .build import exc_sig, exc_detail
 
-    old = signal.signal(signal.SIGALRM, _alarm)
-    signal.setitimer(signal.ITIMER_REAL, timeout)
+    if timeout:
+        old = signal.signal(signal.SIGALRM, _alarm)
+        signal.setitimer(signal.ITIMER_REAL, timeout)
     try:
         try:
             out = test.body(case)
         finally:
-            signal.setitimer(signal.ITIMER_REAL, 0)
-            signal.signal(signal.SIGALRM, old)
+            if timeout:
+                signal.setitimer(signal.ITIMER_REAL, 0)
+                signal.signal(signal.SIGALRM, old)
     except CaseTimeout:
         col.timeouts += 1
         return None
@@ -481,6 +484,31 @@ def main(argv=None):
     for job, col in zip(jobs, results):
         cols[job[1]].merge(col)
 
+    # coverage-guided layer (atheris / libFuzzer) over the same decoders and bodies
+    fuzz_stats = {}
+    if os.environ.get("VERIF_NO_FUZZ") != "1":
+        for ti, t in enumerate(tests):
+            runs = (t.fuzz or {}).get(tier)
+            if not runs:
+                continue
+            from . import fuzz as fz
+
+            runs = max(1, int(runs * a.scale))
+            fb, fs = fz.run_campaign(a.prop, prop, ti, t, src, seed, runs, procs=8 if tier == "thorough" else 4,
+                                     timeout=overall)
+            fuzz_stats[t.name] = fs
+            fc = Collector()
+            fc.evals = fs.get("evals", 0)
+            fc.cases = fs.get("cases", 0)
+            fc.timeouts = fs.get("timeouts", 0)
+            fc.harness_errors = list(fs.get("harness_errors", []))
+            for b in fb:
+                m = fc.buckets.get(b["sig"])
+                if m is None or b["size"] < m["size"]:
+                    fc.buckets[b["sig"]] = b
+            cols[ti].merge(fc)
+            cols[ti].fuzz_nontrivial = fs.get("nontrivial", 0)
+
     total = Collector()
     for c in cols:
         total.merge(c)
@@ -554,6 +582,7 @@ def main(argv=None):
                 "inconclusive_timeouts": total.timeouts,
                 "new_violations": reported,
                 "shards": nshards,
+                "fuzz": fuzz_stats,
                 "repo": src,
             },
             "assumptions": getattr(prop, "ASSUMPTIONS", []),
